@@ -30,7 +30,7 @@ from ..kernel import HarnessError, StopRun, Streams, patched
 from ..ref import data as R
 
 CLASSES = ["TensorDictDataset", "FastTdDataset", "TensorDictDatasetFastGeneration"]
-LOAD_MODES = ["seq", "shuffle_gen", "shuffle_global", "sampler", "sampler", "lit_single", "lit"]
+LOAD_MODES = ["seq", "shuffle_gen", "shuffle_global", "sampler", "sampler", "lit_single", "lit", "lit_dict"]
 BASE_ENVS = ["tsp", "cvrp", "sdvrp", "op", "pctsp"]
 BASELINES = ["rollout_only", "rollout", "rollout", "warmup2"]
 _DT = {"float32": torch.float32, "int64": torch.int64, "bool": torch.bool}
@@ -312,8 +312,24 @@ def _read(run, scope, ds, ref, model_box, step, ignore_extras=False, allow_more_
             shuffle = bool(run.chooser.pick(2))
             if mode == "lit_single":
                 dl = model._dataloader_single(ds, bs, shuffle)
-            else:
+            elif mode == "lit":
                 dl = model._dataloader(ds, bs, shuffle)
+            else:
+                # dict of data sets with one batch size each -> list of loaders in the dict's order
+                bs2 = opts[run.chooser.pick(len(opts))]
+                which = run.chooser.pick(2)
+                dls = model._dataloader({"x": ds, "y": ds}, [bs, bs2], shuffle)
+                if not isinstance(dls, list) or len(dls) != 2 or model.dataloader_names != ["x", "y"]:
+                    run.violate(scope, "loader_identity", "_dataloader(dict of 2 data sets) did not return two "
+                                "named loaders", constraint="count", mode=mode)
+                    raise StopRun()
+                dl = dls[which]
+                bs = [bs, bs2][which]
+                try:  # the docstring also promises lists of data sets; observed, not judged here
+                    model._dataloader([ds, ds], [bs, bs2], shuffle)
+                    run.probe("obs_dataloader_list_ok")
+                except AttributeError:
+                    run.probe("obs_dataloader_list_of_datasets_crash")
             if shuffle:
                 mode += "+shuffle"
     shuffled = mode in ("shuffle_gen", "shuffle_global") or mode.endswith("+shuffle")
@@ -606,7 +622,17 @@ def _baseline(run):
         torch.manual_seed(run.streams.torch_seed(f"epoch-end-{ep}"))
         n_wraps = len(wraps)
         with run.guard(scope, "on_train_epoch_end", epoch=ep):
-            model.on_train_epoch_end()
+            try:
+                model.on_train_epoch_end()
+            except AssertionError as e:
+                # RolloutBaseline.epoch_callback asserts t < 0 whenever the float32 means say "candidate better";
+                # for a candidate that ties with the baseline up to rounding the t statistic can be >= 0.  This is
+                # about the baseline's update rule, not about instance identity: counted, the run ends here.
+                if "T-statistic should be negative" not in str(e):
+                    raise
+                run.probe("obs_epoch_callback_tstat_assert")
+                run.log.add("obs", "epoch_callback_tstat_assert", ep)
+                raise StopRun()
         after = getattr(rb, "policy", None)
         if after is not before:
             run.probe("baseline_replaced")
